@@ -155,6 +155,17 @@ def encode (P : Params) (batched : Bool) (scale : Nat) (vals : Vals) : Option RP
       | .i v => if v.length > n then none else some (v.map (i64Slot t) ++ List.replicate (n - v.length) 0)
     raw.map fun r => ringT2Q P.qs t P.bigN true (mulScalar t scale r)
 
+/-- `Encoder.EmbedScale(values, scaleUp, metadata, polyOut)` (`Embed` = `scaleUp := false`): the rows over the
+    moduli `mods` of the receiver (the Q part at its level, or the P part), in CANONICAL form — the code then
+    applies NTT if `metadata.IsNTT` and multiplies by 2^64 if `metadata.IsMontgomery`, which the harness undoes
+    (`Canon`) according to the same metadata before comparing. -/
+def embed (P : Params) (mods : List Nat) (scaleUp : Bool) (scale : Nat) (vals : Vals) : Option RPoly :=
+  let n := P.T.n
+  let pT := match vals with
+    | .u v => encodeRingTU P.T P.perm v scale (List.replicate n 0)
+    | .i v => encodeRingTI P.T P.perm v scale (List.replicate n 0)
+  pT.map (ringT2Q mods P.T.q P.bigN scaleUp)
+
 /-- `Encoder.Decode(pt, values)` with `len(values) = len` -/
 def decodeU (P : Params) (batched : Bool) (scale : Nat) (a : RPoly) (len : Nat) : List Nat :=
   let t := P.T.q
